@@ -34,6 +34,12 @@ func runC02(c *an.Ctx) {
 	c.As(map[string]string{"R12j": "R02j"}, func() { r12j(c) })
 	r02k(c)
 	c.As(map[string]string{"R12l": "R02l"}, func() { r12l(c) })
+	// round 7: shared with C12 (per-target copy keeps id and timeout; sizes agree; registered before sent) and C11 (status merge)
+	c.As(map[string]string{"R12h": "R02m"}, func() { r12h(c) })
+	c.As(map[string]string{"R12a": "R02n", "R12b": "R02o"}, func() { r12ab(c) })
+	c.As(map[string]string{"R12d": "R02p"}, func() { r12d(c) })
+	c.As(map[string]string{"R11b": "R02q", "R11d": "R02r"}, func() { r11d(c, r11b(c)) })
+	r02t(c)
 }
 
 // transitionDos returns the `do` methods of all implementers of environment.Transition.
